@@ -2,15 +2,13 @@ SPECIFICATION Spec
 CONSTANTS
   AMs = {"am1", "am2"}
   InitAMs = {"am1"}
-  Cap = 3
+  Cap = 2
   MaxBatch = 2
-  NAlerts = 5
-  SendSizes = {1, 2, 4}
+  NAlerts = 3
+  SendSizes = {1, 2}
   DropIds = {2}
-  Drain = TRUE
   MaxFail = 1
   MaxSync = 1
-  JoinFix = FALSE
   Eager = FALSE
   Hist = FALSE
   EmitMode = "none"
